@@ -8,7 +8,7 @@
 From Coq Require Import List Arith ZArith Bool.
 Import ListNotations.
 Require Import FV.Base.F64 FV.Base.PyVal FV.Gen.C05 FV.C05.Model FV.C05.ModelCb FV.C05.Lemmas FV.C05.LemmasConc FV.C05.LemmasAct
-  FV.C05.LemmasRef FV.C05.LemmasCb FV.C05.Refuted.
+  FV.C05.LemmasRef FV.C05.LemmasCb FV.C05.Refuted FV.C05.ModelReq FV.C05.LemmasReq.
 
 (* the shapes read off the source, as the flags of the concurrent model *)
 Definition src_flags : flags :=
@@ -24,6 +24,7 @@ Theorem C05_source_facts :
   error_eq_ignores_methods = true /\ update_unchanged_codes = (0, 999999999, -1)%Z /\
   activate_registers_first = true /\ snapshot_in_updateLock = true /\ broadcast_iterates_private_copy = true /\
   callback_except_class = s_exception /\ callback_loop_shape = true /\ callback_registration_shape = true /\
+  export_value_pure = true /\ reply_built_from_cache = true /\
   src_flags = flags_ok.
 Proof. repeat split; reflexivity. Qed.
 Print Assumptions C05_source_facts.
@@ -210,6 +211,56 @@ Proof.
   exact (run_cb_coherent G ocs _ (activate_coherent G s0) k sc p P c Hk Hc HP Hcell).
 Qed.
 Print Assumptions C05_coherent_with_callbacks.
+
+
+(* ------------------------------------------------------------------ request threads (read / change requests through
+   the dispatcher).  A request is the wrapped read_ / write_ method (a job of the concurrent model) followed by the
+   construction of the reply -- pobj.export_value() and pobj.timestamp, read WITHOUT the module's updateLock, with
+   park points inside the conversion ([rstep], ModelReq.v).  Source facts export_value_pure (Parameter.export_value is
+   `return self.datatype.export_value(self.value)`, nothing is stored) and reply_built_from_cache (the reply is built
+   after the wrapper call from these two reads only) are obligations of C05_source_facts. *)
+
+(* frame: a step of a thread that is building a reply, from any state, for any flags, changes nothing that is shared:
+   cache, clock, raising-method lists, the stream of every connection, the subscription table and the park points
+   (hence the locks) of all threads are the same; the other threads' request bookkeeping is untouched *)
+Theorem C05_reply_building_is_pure : forall G F s i,
+  is_reply s i = true ->
+  let s' := rstep G F s i in
+  r_cs s' = r_cs s /\
+  s_cells (cs_st (r_cs s')) = s_cells (cs_st (r_cs s)) /\
+  (forall k, msgs_of k (cs_st (r_cs s')) = msgs_of k (cs_st (r_cs s))) /\
+  cs_subs (r_cs s') = cs_subs (r_cs s) /\
+  (forall j, j <> i -> nth_error (r_req s') j = nth_error (r_req s) j).
+Proof.
+  intros G F s i H s'. pose proof (rstep_reply_frame G F s i H) as E. fold s' in E.
+  split; [exact E|]. rewrite E. repeat split; auto.
+  intros j N. exact (rstep_reply_others G F s i j H N).
+Qed.
+Print Assumptions C05_reply_building_is_pure.
+
+(* every schedule of the system with request threads is, once the reply steps are erased, a schedule of the
+   concurrent model with the same shared state: request threads add no behaviour *)
+Theorem C05_request_threads_add_nothing : forall G F s sched,
+  r_cs (rrun G F s sched) = crun G F (r_cs s) (erase G F s sched).
+Proof. intros. apply rrun_erase. Qed.
+Print Assumptions C05_request_threads_add_nothing.
+
+(* ... so coherence at quiescent points holds with any number of request threads, replies under construction or not
+   (marks: any number of reply park points after any job of any thread), under every schedule: in particular a
+   connection activated after (or while) replies were built holds the cached entries *)
+Theorem C05_coherent_with_request_threads : forall G s0 progs marks sched,
+  src_flags = flags_ok -> wf_config G -> length (s_cells s0) = length (g_params G) ->
+  let r := r_cs (rrun G src_flags (rinit (activate_all G s0) (subs0 G) progs marks) sched) in
+  quiet r = true ->
+  forall k scs sc p P c,
+    nth_error (cs_subs r) k = Some scs -> In sc scs -> covers G sc p = true ->
+    nth_error (g_params G) p = Some P -> nth_error (s_cells (cs_st r)) p = Some c ->
+    exists m, replay p (msgs_of k (cs_st r)) = Some m /\ reports G None P p c m.
+Proof.
+  intros G s0 progs marks sched HF WG L r. subst r. rewrite rrun_erase. simpl r_cs.
+  exact (C05_concurrent_activation_coherent G s0 progs _ HF WG L).
+Qed.
+Print Assumptions C05_coherent_with_request_threads.
 
 Print Assumptions C05_refuted_error_text_stable.
 Print Assumptions C05_refuted_without_update_lock.
